@@ -4,7 +4,7 @@
    crop, pad, append, resample, and the state machine [exec] over sequences of resizing calls.
    Floats are exact rationals [Qc]; a Python exception is [Err kind]; the mutating methods return
    the state they LEAVE BEHIND together with the exception they raised, if any (a refused call does
-   not always leave the object untouched: see [resample], [crop]).
+   not always leave the object untouched: see [crop]).
    Wavelength unit is 'nm' throughout (units are C14's business). Definitions only; the lemmas are in
    Proofs/SpectrumEditP.v. *)
 From LV Require Export Lib.Scalar.
@@ -292,16 +292,12 @@ Definition append (s o : spectrum) : outcome :=
       end
   end.
 
-(* self.value = self.sample(grid); self.wave = grid  -- in this order *)
+(* value = self.sample(grid); self.wave = grid (validated by the setter); self.value = value
+   -- the grid is checked BEFORE anything is assigned (fix 732bed0): a refused resample leaves the object as it was *)
 Definition resample (s : spectrum) (g : list Qc) : outcome :=
   match sample s g with
   | Err e => (s, Some e)
-  | Ok v =>
-      let s1 := mkSp (wave s) v in
-      match wave_check g with
-      | Err e => (s1, Some e)
-      | Ok w => (mkSp w v, None)
-      end
+  | Ok v => match wave_check g with Err e => (s, Some e) | Ok w => (mkSp w v, None) end
   end.
 
 (* ---- the state machine ---- *)
@@ -324,19 +320,6 @@ Definition run (s : spectrum) (ops : list op) : spectrum := fold_left (fun s o =
 Fixpoint trace (s : spectrum) (ops : list op) : list outcome :=
   match ops with [] => [] | o :: t => let r := exec s o in r :: trace (fst r) t end.
 
-(* ---- the same machine after the proposed fix proposed_fixes/c15-resample-validate-first.patch:
-        resample validates the grid before it assigns the values (everything else unchanged) ---- *)
-Definition resample_fixed (s : spectrum) (g : list Qc) : outcome :=
-  match sample s g with
-  | Err e => (s, Some e)
-  | Ok v => match wave_check g with Err e => (s, Some e) | Ok w => (mkSp w v, None) end
-  end.
-Definition exec_fixed (s : spectrum) (o : op) : outcome :=
-  match o with OResample g => resample_fixed s g | _ => exec s o end.
-Definition run_fixed (s : spectrum) (ops : list op) : spectrum := fold_left (fun s o => fst (exec_fixed s o)) ops s.
-Fixpoint trace_fixed (s : spectrum) (ops : list op) : list outcome :=
-  match ops with [] => [] | o :: t => let r := exec_fixed s o in r :: trace_fixed (fst r) t end.
-
 (* ---- specification-level notions ---- *)
 (* well-formed: positive, strictly increasing grid, one value per wavelength *)
 Fixpoint increasing (w : list Qc) : Prop :=
@@ -346,12 +329,6 @@ Definition wf (s : spectrum) : Prop :=
 (* what an operation must satisfy to be covered: appended spectra have one value per wavelength *)
 Definition op_ok (o : op) : Prop :=
   match o with OAppend o' => length (wave o') = length (value o') | _ => True end.
-(* a resample refused because of its grid (the only call that can leave an ill-formed object) *)
-Definition bad_resample (s : spectrum) (o : op) : Prop :=
-  match o with OResample g => snd (exec s o) <> None | _ => False end.
-(* a call sequence without such a call *)
-Fixpoint no_bad_resample (s : spectrum) (ops : list op) : Prop :=
-  match ops with [] => True | o :: t => ~ bad_resample s o /\ no_bad_resample (fst (exec s o)) t end.
 (* the values a*v + b*u on a common grid *)
 Definition lincomb (a : Qc) (v : list Qc) (b : Qc) (u : list Qc) : list Qc :=
   map (fun p => a * fst p + b * snd p) (combine v u).
